@@ -390,6 +390,50 @@ theorem introspect_faithful (cfg : Cfg) (sha : String → String) (hchk : cfg.em
     cases firstReserved cfg.reserved rec.claims <;> rfl
   · rw [if_neg hle, if_neg hle]
 
+/-! ### non-vacuity: one server, both flows, from request to introspection -/
+
+private def demoSha (v : String) : String := if v = "the-verifier" then "the-challenge" else "other"
+
+private def demoSession : Session :=
+  { clientId := "client", scope := "care", ownSubject := "alpha", challenge := "the-challenge", method := "S256",
+    clientState := "cs", consumer := ⟨[("organization", ⟨"pd_org", 0⟩)], [], [], 0⟩ }
+
+private def demoAuth : AuthResp :=
+  { subject := "alpha", state := some "st", vpToken := true, envelopeOK := true,
+    vps := [{ witnessVP with challenge := "nonce-1", nonce := "", expires := some 100000 }],
+    submission := true, submissionOK := true, subDefId := "pd_org", pex := fun k => k == 0,
+    claims := fun _ => [("org_name", "\"Care BV\"")] }
+
+private def demoHistory : List (Nat × Op) :=
+  [(100, .seed "st" "nonce-1" demoSession),
+   (101, .auth demoAuth),
+   (102, .code { subject := "alpha", code := some "code#0", verifier := some "the-verifier", clientId := some "client",
+                 dpop := .valid "kid" "THUMB" }),
+   (103, .code { subject := "alpha", code := some "code#0", verifier := some "the-verifier", clientId := some "client",
+                 dpop := .absent }),
+   (104, .s2s { witnessReq with vps := [{ witnessVP with created := some 108, expires := some 113 }] }),
+   (118, .s2s { witnessReq with vps := [{ witnessVP with created := some 108, expires := some 113 }] })]
+
+/-- the authorization-code flow runs to a token (a presentation valid for 99 900 ticks is accepted: no validity bound
+    in this flow), the code works once, a vp_token-bearer presentation post-dated by 4 is accepted at 104 and refused
+    at 118 (still inside created-5 .. expires+5, nonce remembered for 15) -/
+example : (run witnessCfg demoSha demoHistory {}).2 =
+    [.seeded,
+     .auth (.ok (.code "code#0" "cs")),
+     .token (.ok { token := "tok#0", tokenType := "DPoP", dpopKid := some "kid", scope := "care", expiresIn := 900 }),
+     .token (.err "invalid_grant/invalid-code"),
+     .token (.ok { token := "tok#1", tokenType := "Bearer", dpopKid := none, scope := "care", expiresIn := 900 }),
+     .token (.err "invalid_request/nonce-reused")] := by decide
+
+/-- introspection of the code-flow token: active with the session's issuer / client / scope, the key binding of the
+    DPoP proof and the credential-derived claim; inactive after 900 -/
+example : introspectPlain witnessCfg (after witnessCfg demoSha demoHistory {}) 500 "tok#0" =
+    .ok [("org_name", "\"Care BV\""), ("scope", "\"care\""), ("iss", "\"https://as/oauth2/alpha\""), ("iat", "102"),
+         ("exp", "1002"), ("cnf", "{\"jkt\":\"THUMB\"}"), ("client_id", "\"client\""), ("active", "true")] ∧
+    introspectPlain witnessCfg (after witnessCfg demoSha demoHistory {}) 1003 "tok#0" = .ok [("active", "false")] ∧
+    introspectPlain witnessCfg (after witnessCfg demoSha demoHistory {}) 500 "tok#7" = .ok [("active", "false")] := by
+  decide
+
 /-- introspection reads nothing but the token store -/
 theorem introspect_depends_on_token_store_only (cfg : Cfg) (w₁ w₂ : World) (h : w₁.tokens = w₂.tokens)
     (now : Nat) (tok : String) : introspect cfg w₁ now tok = introspect cfg w₂ now tok := by
@@ -401,17 +445,18 @@ theorem introspect_depends_on_token_store_only (cfg : Cfg) (w₁ w₂ : World) (
     its standard value (absent members stay absent) - whatever the order in which the marshaller assigns. -/
 theorem claims_cannot_override (cfg : Cfg) (hres : ∀ k ∈ Facts.C02.introspectionFields, k ∈ cfg.reserved)
     (w : World) (now : Nat) (tok : String) (r : Introspection) (h : introspect cfg w now tok = .ok (some r))
+    (r' : Introspection) (hsame : r'.additional = r.additional)
     (order : List String) (k : String) (hk : k ∈ Facts.C02.introspectionFields) :
-    objGet (marshal order r) k = if k ∈ order then r.std k else none := by
+    objGet (marshal order r') k = if k ∈ order then r'.std k else none := by
   obtain ⟨t, _, _, _, hnone, hr⟩ := introspect_some cfg w now tok r h
-  have hadd : k ∉ keys r.additional := by
-    rw [hr]; exact firstReserved_none cfg.reserved t.claims hnone k (hres k hk)
+  have hadd : k ∉ keys r'.additional := by
+    rw [hsame, hr]; exact firstReserved_none cfg.reserved t.claims hnone k (hres k hk)
   have hstar : k ≠ "*" := by
     intro he; subst he; revert hk; decide
-  have := objGet_marshal_fold r k hstar hadd order []
+  have := objGet_marshal_fold r' k hstar hadd order []
   rw [marshal, this]
   split
-  · cases r.std k <;> rfl
+  · cases r'.std k <;> rfl
   · rfl
 
 /-- the same for the configuration the source has today (reserved list and marshal order regenerated) -/
@@ -421,9 +466,42 @@ theorem claims_cannot_override_today (cfg : Cfg) (hcfg : cfg.reserved = Facts.C0
     objGet (marshal Facts.C02.marshalAssignOrder r) k = r.std k := by
   have hres : ∀ k ∈ Facts.C02.introspectionFields, k ∈ cfg.reserved := by
     rw [hcfg]; exact fact_reserved_covers_fields
-  rw [claims_cannot_override cfg hres w now tok r h _ k hk]
+  rw [claims_cannot_override cfg hres w now tok r h r rfl _ k hk]
   rw [fact_introspection_fields.2]
   simp [hk]
+
+/-- the RFC7662 endpoint as a whole (`IntrospectAccessToken`: members cleared, generated marshaller): every standard
+    member of the JSON answer is the standard value - `active` and nothing else for an inactive token -/
+theorem plain_introspection_members (cfg : Cfg) (hcfg : cfg.reserved = Facts.C02.reservedClaims)
+    (horder : cfg.marshalOrder = Facts.C02.marshalAssignOrder)
+    (w : World) (now : Nat) (tok : String) (obj : Obj) (h : introspectPlain cfg w now tok = .ok obj)
+    (k : String) (hk : k ∈ Facts.C02.introspectionFields) :
+    (∃ r, introspect cfg w now tok = .ok (some r) ∧
+        objGet obj k = ({ r with vps := none, pds := none, pss := none } : Introspection).std k) ∨
+    (introspect cfg w now tok = .ok none ∧ objGet obj k = if k = "active" then some "false" else none) := by
+  have hres : ∀ k ∈ Facts.C02.introspectionFields, k ∈ cfg.reserved := by
+    rw [hcfg]; exact fact_reserved_covers_fields
+  unfold introspectPlain at h
+  split at h
+  · rename_i hi
+    right
+    simp only [Res.ok.injEq] at h
+    subst h
+    refine ⟨hi, ?_⟩
+    rw [horder]
+    revert k
+    decide
+  · rename_i r hi
+    left
+    simp only [Res.ok.injEq] at h
+    subst h
+    refine ⟨r, hi, ?_⟩
+    have := claims_cannot_override cfg hres w now tok r hi
+      ({ r with vps := none, pds := none, pss := none } : Introspection) rfl cfg.marshalOrder k hk
+    rw [this, horder, fact_introspection_fields.2]
+    simp [hk]
+  · cases h
+  · cases h
 
 /-- why the reserved list matters: with the marshaller's order (additional properties last) a claim named like a
     standard member that is NOT reserved replaces it -/
